@@ -66,6 +66,13 @@ package parser
 //@   ensures declared-seq: typ == lexer.TTOptSeq ==> (forall j int :: 0 <= j && j < len(name) ==> (("-" + name[j:j+1]) in p.optionsIdx))
 //@   ensures no-options-after-dd: isOptTok(typ) ==> !rej0
 //@   ensures dd-sets-flag: (rej0 || typ == lexer.TTDoubleDash) ==> p.rejectOptions
+//@   ensures closes-par: typ == lexer.TTOpenPar ==> p.tkpos >= pos0 + 2 &&
+//@       (p.tokens[p.tkpos-1].Typ == lexer.TTClosePar || (p.tokens[p.tkpos-1].Typ == lexer.TTRep && p.tokens[p.tkpos-2].Typ == lexer.TTClosePar))
+//@   ensures closes-sq: typ == lexer.TTOpenSq ==> p.tkpos >= pos0 + 2 &&
+//@       (p.tokens[p.tkpos-1].Typ == lexer.TTCloseSq || (p.tokens[p.tkpos-1].Typ == lexer.TTRep && p.tokens[p.tkpos-2].Typ == lexer.TTCloseSq))
+//@   ensures non-empty-group: (typ == lexer.TTOpenPar || typ == lexer.TTOpenSq) ==> p.tkpos >= pos0 + 3
+//@   ensures leaf-extent: (typ == lexer.TTArg || typ == lexer.TTOptions || typ == lexer.TTOptSeq) ==> p.tkpos <= pos0 + 2 &&
+//@       (p.tkpos == pos0 + 2 ==> p.tokens[pos0+1].Typ == lexer.TTRep)
 //@   ensures leaf-arg: typ == lexer.TTArg ==> len(result0.Transitions) >= 1 && isType(result0.Transitions[0].Matcher, "*matcher.arg") &&
 //@       asType(result0.Transitions[0].Matcher, "*matcher.arg").arg == p.argsIdx[name] && result0.Transitions[0].Next == result1
 //@   ensures leaf-opt: (typ == lexer.TTShortOpt || typ == lexer.TTLongOpt) ==> len(result0.Transitions) >= 1 && isType(result0.Transitions[0].Matcher, "*matcher.opt") &&
